@@ -92,6 +92,31 @@ fn probe(ctx: &mut Ctx, d: &Table, z: f64, t: f64, what: &str) -> Option<Look> {
             return None;
         }
     };
+    // the avalanche's other fields (amplitudes) are not inputs of the conversion: any values, NaN and infinities included,
+    // must give the very same answer
+    if ctx.evaluations % 4 == 0 {
+        let k = (ctx.evaluations / 4) as usize;
+        let wa = [f64::NAN, 0.0, -1.0, f64::INFINITY, 1e300, 5e-324][k % 6];
+        let pa = [0.0, f64::NAN, f64::NEG_INFINITY, -0.0, 123.0, f64::NAN][k % 6];
+        let a = Avalanche { t: Time::new::<second>(t), phi: Angle::new::<radian>(1.0), z: Length::new::<meter>(z), wire_amplitude: wa, pad_amplitude: pa };
+        let l2 = match guard(|| SpacePoint::try_from(a)) {
+            Ok(Ok(sp)) => Look::Ok(sp.r.get::<meter>(), 1.0 - sp.phi.get::<radian>()),
+            Ok(Err(TryDriftLookupError::DriftTimeOutOfRange(_))) => Look::ErrT,
+            Ok(Err(TryDriftLookupError::AxialPositionOutOfRange(_))) => Look::ErrZ,
+            Err(p) => {
+                ctx.panic_violation("SpacePoint::try_from(Avalanche)", &p, json!({"z": z, "t": t, "wire_amplitude": format!("{}", wa), "pad_amplitude": format!("{}", pa)}));
+                return None;
+            }
+        };
+        let same = match (l, l2) {
+            (Look::Ok(a1, b1), Look::Ok(a2, b2)) => a1.to_bits() == a2.to_bits() && b1.to_bits() == b2.to_bits(),
+            (x, y) => x == y,
+        };
+        if !same {
+            ctx.violation("the conversion depends on the avalanche's amplitudes", format!("{}: z={:e} t={:e}: {:?} with amplitudes 1 / 1, {:?} with {} / {}", what, z, t, l, l2, wa, pa), json!({"z": z, "t": t}));
+            return None;
+        }
+    }
     let (r, either) = ref_look(d, z, t);
     let agree = match (l, r) {
         (Look::Ok(a, b), Look::Ok(c, e)) => (a - c).abs() <= 1e-12 && (b - e).abs() <= 1e-12,
